@@ -55,6 +55,11 @@ PROPS = {
               "Exploration: for each generated query with 0-2 injected failures, ALL completion orders are enumerated by DFS (capped, then LIFO/random); "
               "every order must give the same data and the same error multiset.",
               "Resolvers are deterministic by construction (data world); the per-case cap on schedules is reported in evidence."),
+    "C06": _p("vh-exec", "resolver event log (received arguments) joined with the reference CoerceArgumentValues per response path",
+              "Exploration: generated operations supplying arguments as literals, variables, nested variables, omitted variables, explicit nulls and defaults "
+              "at every level, over S1 echo fields for every receiving Rust type and over dynamic schemas; each resolver's received values are compared "
+              "with the reference coercion projected through the receiving type's view.",
+              "Option<T> cannot tell null from omitted; dynamic accessors read enum-as-string/ID-as-int by value: those representations are normalised only."),
     "C07": _p("vh-scalars", "domain-model oracle over the real parse/to_value of every built-in scalar",
               "Exploration, exhaustive for 8/16-bit integers and NonZero forms: millions of values of every GraphQL kind offered to each built-in scalar; "
               "accept/reject and round trip compared with an arithmetic domain model.",
